@@ -85,6 +85,41 @@ implement_has_component![VS{
     font: FontComponent,
 }];
 
+/// A token value that survives outside the VM: (kind, char or name).
+#[derive(Clone, Debug, PartialEq)]
+pub enum TokV {
+    Char(char, u8),
+    Cs(String),
+    Active(char),
+}
+
+pub fn tokv(t: token::Token, interner: &token::CsNameInterner) -> TokV {
+    match t.value() {
+        token::Value::CommandRef(token::CommandRef::ControlSequence(n)) => TokV::Cs(interner.resolve(n).unwrap_or("?").to_string()),
+        token::Value::CommandRef(token::CommandRef::ActiveCharacter(c)) => TokV::Active(c),
+        _ => TokV::Char(t.char().unwrap_or('?'), t.cat_code().map(|c| c as u8).unwrap_or(12)),
+    }
+}
+
+#[derive(Clone, Debug)]
+pub struct MacroCall {
+    pub name: TokV,
+    pub args: Vec<Vec<TokV>>,
+    pub expansion: Vec<TokV>,
+}
+
+thread_local! {
+    static MACRO_REC: RefCell<Option<Vec<MacroCall>>> = const { RefCell::new(None) };
+}
+
+/// Start recording every macro call (arguments bound and expansion) seen by the expansion hook.
+pub fn macro_rec_start() {
+    MACRO_REC.with(|m| *m.borrow_mut() = Some(vec![]));
+}
+pub fn macro_rec_take() -> Vec<MacroCall> {
+    MACRO_REC.with(|m| m.borrow_mut().take().unwrap_or_default())
+}
+
 /// Panic payload used to cut off programs that exceed the step budget (not a defect).
 pub struct BudgetExceeded;
 
@@ -122,6 +157,14 @@ impl TexlangState for VS {
         reversed_expansion: &[token::Token],
     ) {
         step();
+        if MACRO_REC.with(|m| m.borrow().is_some()) {
+            let interner = input.vm().cs_name_interner();
+            let conv = |t: &token::Token| -> TokV { tokv(*t, interner) };
+            let args: Vec<Vec<TokV>> = arguments.iter().map(|a| a.iter().map(conv).collect()).collect();
+            let exp: Vec<TokV> = reversed_expansion.iter().rev().map(conv).collect();
+            let name = tokv(token, interner);
+            MACRO_REC.with(|m| m.borrow_mut().as_mut().unwrap().push(MacroCall { name, args, expansion: exp }));
+        }
         tracingmacros::hook(token, input, tex_macro, arguments, reversed_expansion)
     }
     fn expansion_override_hook(
